@@ -39,6 +39,8 @@ func main() {
 		cmdWitness(os.Args[2:])
 	case "formats":
 		cmdFormats(os.Args[2:])
+	case "namer":
+		cmdNamer(os.Args[2:])
 	case "rules":
 		cmdRules(os.Args[2:])
 	default:
